@@ -139,7 +139,7 @@ func Main(args []string) int {
 		names = append(names, e.name())
 	}
 	rep.Set("alphabet", names)
-	rep.Set("bounds", map[string]interface{}{"blocks_per_history": depth, "ops_per_block": "0..3 (19 single operations, 16 listed pairs, 6 listed triples; quick tier: triples in the first two blocks only)", "alphabet_size": len(evs),
+	rep.Set("bounds", map[string]interface{}{"blocks_per_history": depth, "ops_per_block": "0..3 (20 single operations, 16 listed pairs, 6 listed triples; quick tier: triples in the first two blocks only)", "alphabet_size": len(evs),
 		"trailing_empty_blocks": quietBlocks, "search": "breadth-first, all successors of every new state, dedup on projected state digest"})
 	rep.Assume("the EVM view is read through a fresh instance of the adapter (vm.CommitStateDB over the account keeper and contract store) bound to the same state object the native read uses; the application's own adapter instance is never probed")
 	rep.Assume("native transactions cannot be signed by ETHSECP accounts at all (their key handler signs/verifies 32-byte digests only), so 'native from an ETHSECP account' does not exist; native sends TO them and OLVM transfers to ED25519 accounts are in the alphabet")
